@@ -7,10 +7,23 @@ Both sides are REGENERATED from /repo on every run:
 The theorems quantify over every number system `N : NumLike` (so IEEE doubles with NaN and
 -0.0, exact cents, …), every lower-casing function `lower` shared by the two sides, every
 amount and every tag list (missing, empty, any strings).
+
+The two languages do NOT in fact share one lower-casing function: Python's `str.lower` and
+JavaScript's `toLowerCase` follow the Unicode tables of their own runtimes (e.g. CPython 3.12 =
+Unicode 15.0, node 20 = Unicode 17.0: they differ on the letters added in between), and a change
+of either side to another normalisation (`casefold`, `toLocaleLowerCase`, NFKC, trimming, accent
+folding …) makes them differ on `ſ`, `ı`, `İ`, `ﬆ`, full-width letters, ….  The second group of
+theorems (`*_eq_of_specialAgree`) therefore takes the two lower-casing functions SEPARATELY and
+states the exact hypothesis under which the two programs still agree: `specialAgree`, i.e. for
+each of the three special words, some tag of the list lower-cases to it on the JavaScript side
+exactly when one does on the Python side.  The check evaluates this (decidable) hypothesis with
+the real `str.lower` / `toLowerCase` on every generated tag list and runs both generated models
+with the recorded per-tag images of the two functions.
 -/
 import TallyVerif.Gen.ClassPy
 import TallyVerif.Gen.ClassJs
 import TallyVerif.Lemmas.ClassSets
+import TallyVerif.Model.Num
 
 namespace TallyVerif.Props.C13
 open TallyVerif TallyVerif.Gen
@@ -55,5 +68,85 @@ theorem cashflow_eq (N : NumLike) (lower : String → String) (income spending c
     ClassJs.calculateCashFlow N lower income spending credits =
       ClassPy.calculate_cash_flow N lower income spending credits := by
   simp only [ClassJs.calculateCashFlow, ClassPy.calculate_cash_flow]
+
+/-! ### two lower-casing functions -/
+
+private theorem specialAgree_iff {lowerJs lowerPy : String → String} {tags : Option (List String)}
+    (h : specialAgree lowerJs lowerPy tags = true) :
+    (((orEmpty tags).map lowerJs).contains "income" = ((orEmpty tags).map lowerPy).contains "income") ∧
+    (((orEmpty tags).map lowerJs).contains "transfer" = ((orEmpty tags).map lowerPy).contains "transfer") ∧
+    (((orEmpty tags).map lowerJs).contains "investment" = ((orEmpty tags).map lowerPy).contains "investment") := by
+  simpa [specialAgree] using h
+
+/-- pointwise agreement on the tags of the list is enough for `specialAgree`. -/
+theorem specialAgree_of_pointwise (lowerJs lowerPy : String → String) (tags : Option (List String))
+    (h : ∀ t ∈ orEmpty tags, lowerJs t = lowerPy t) : specialAgree lowerJs lowerPy tags = true := by
+  have : (orEmpty tags).map lowerJs = (orEmpty tags).map lowerPy := List.map_congr_left h
+  simp [specialAgree, this]
+
+/-- the hypothesis cannot be dropped: with a Python side that folds the long s (what
+`str.casefold` does) and a JavaScript side that does not, `['tranſfer']` is a transfer for one
+program and ordinary spending for the other. -/
+example :
+    let lowerJs : String → String := id
+    let lowerPy : String → String := fun s => if s = "tranſfer" then "transfer" else s
+    specialAgree lowerJs lowerPy (some ["tranſfer"]) = false ∧
+    ClassJs.isTransfer intNum lowerJs (some ["tranſfer"]) ≠
+      ClassPy.is_transfer intNum lowerPy (some ["tranſfer"]) := by
+  decide +kernel
+
+/-- …and it is satisfiable by functions that differ (Unicode-version skew on a non-special tag). -/
+example :
+    let lowerJs : String → String := fun s => if s = "Ᲊ" then "ᲊ" else s
+    let lowerPy : String → String := id
+    lowerJs "Ᲊ" ≠ lowerPy "Ᲊ" ∧
+    specialAgree lowerJs lowerPy (some ["Ᲊ", "income"]) = true := by
+  decide +kernel
+
+theorem is_income_eq_of_specialAgree (N : NumLike) (lowerJs lowerPy : String → String)
+    (tags : Option (List String)) (h : specialAgree lowerJs lowerPy tags = true) :
+    ClassJs.isIncome N lowerJs tags = ClassPy.is_income N lowerPy tags := by
+  obtain ⟨hi, _, _⟩ := specialAgree_iff h
+  simpa only [ClassJs.isIncome, ClassPy.is_income, ClassJs.getTagsLower, ClassPy.get_tags_lower,
+    ClassJs.INCOME_TAG, ClassPy.INCOME_TAG] using hi
+
+theorem is_transfer_eq_of_specialAgree (N : NumLike) (lowerJs lowerPy : String → String)
+    (tags : Option (List String)) (h : specialAgree lowerJs lowerPy tags = true) :
+    ClassJs.isTransfer N lowerJs tags = ClassPy.is_transfer N lowerPy tags := by
+  obtain ⟨_, ht, _⟩ := specialAgree_iff h
+  simpa only [ClassJs.isTransfer, ClassPy.is_transfer, ClassJs.getTagsLower, ClassPy.get_tags_lower,
+    ClassJs.TRANSFER_TAG, ClassPy.TRANSFER_TAG] using ht
+
+theorem is_investment_eq_of_specialAgree (N : NumLike) (lowerJs lowerPy : String → String)
+    (tags : Option (List String)) (h : specialAgree lowerJs lowerPy tags = true) :
+    ClassJs.isInvestment N lowerJs tags = ClassPy.is_investment N lowerPy tags := by
+  obtain ⟨_, _, hv⟩ := specialAgree_iff h
+  simpa only [ClassJs.isInvestment, ClassPy.is_investment, ClassJs.getTagsLower, ClassPy.get_tags_lower,
+    ClassJs.INVESTMENT_TAG, ClassPy.INVESTMENT_TAG] using hv
+
+/-- bucket and bucket value agree whenever the two lower-casing functions agree about the
+special words on this tag list. -/
+theorem categorize_eq_of_specialAgree (N : NumLike) (lowerJs lowerPy : String → String)
+    (amount : N.α) (tags : Option (List String)) (h : specialAgree lowerJs lowerPy tags = true) :
+    ClassJs.categorizeAmount N lowerJs amount tags = ClassPy.categorize_amount N lowerPy amount tags := by
+  obtain ⟨hi, ht, hv⟩ := specialAgree_iff h
+  simp only [ClassJs.categorizeAmount, ClassPy.categorize_amount, ClassJs.getTagsLower,
+    ClassPy.get_tags_lower, ClassJs.INCOME_TAG, ClassPy.INCOME_TAG, ClassJs.INVESTMENT_TAG,
+    ClassPy.INVESTMENT_TAG, ClassJs.TRANSFER_TAG, ClassPy.TRANSFER_TAG] at hi ht hv ⊢
+  rw [hi, ht, hv]
+
+/-- the excluded-from-spending decision agrees under the same hypothesis. -/
+theorem excluded_eq_of_specialAgree (N : NumLike) (lowerJs lowerPy : String → String)
+    (tags : Option (List String)) (h : specialAgree lowerJs lowerPy tags = true) :
+    ClassJs.isExcludedFromSpending N lowerJs tags = ClassPy.is_excluded_from_spending N lowerPy tags := by
+  obtain ⟨hi, ht, hv⟩ := specialAgree_iff h
+  simp only [ClassJs.isExcludedFromSpending, ClassPy.is_excluded_from_spending,
+    ClassJs.EXCLUDED_FROM_SPENDING, ClassPy.EXCLUDED_FROM_SPENDING,
+    ClassJs.INCOME_TAG, ClassPy.INCOME_TAG, ClassJs.INVESTMENT_TAG, ClassPy.INVESTMENT_TAG,
+    ClassJs.TRANSFER_TAG, ClassPy.TRANSFER_TAG]
+  rw [forFirst_contains_eq_any, setNonempty_setInter,
+    any_contains_swap (ClassPy.get_tags_lower N lowerPy tags)]
+  simp only [ClassJs.getTagsLower, ClassPy.get_tags_lower, List.any_cons, List.any_nil] at hi ht hv ⊢
+  rw [hi, ht, hv]
 
 end TallyVerif.Props.C13
